@@ -4,9 +4,9 @@
 use vstd::prelude::*;
 use core::cmp::Ordering;
 use vstd::std_specs::cmp::{OrdSpec, PartialOrdSpec, PartialEqSpec};
-use vstd::std_specs::ops::{AddSpec, MulSpec};
+use vstd::std_specs::ops::*;
 use std::alloc::Allocator;
-use std::ops::{Add, Mul, Range};
+use std::ops::{Add, Sub, Mul, Div, Range};
 verus! {
 //@include ../shim/order.rs
 //@include ../shim/lane.rs
